@@ -4,6 +4,8 @@ from . import c14, wrappers
 
 
 def run(check, pool, Task):
+    from . import validate
+    validate.apply(check, ['measures'])
     thorough = check.tier == 'thorough'
     cap = 600
     check.bounds.update({'area': 'rings of <= 6 (8) vertices, <= 3 rings, |v| <= 2^24, exact integer identity (x2)',
